@@ -1201,7 +1201,8 @@ def _pf_scenarios(n):
 
 
 def _portfolio_chunk(job):
-    n, scen, exit_on_exception = job
+    n, scen, exit_on_exception = job[:3]
+    optset = job[3] if len(job) > 3 else None      # per member: None (given by name) or a dict of local options
     repo = get_repo()
     repo.add_virtual(PF_PROBE_MOD, PF_PROBE_SRC)
     shape = Shape(("And", S("a"), S("b")))
@@ -1216,18 +1217,27 @@ def _portfolio_chunk(job):
         holder = {"verdict": True}
         out = []
         for beh, order, gaps in scen:
+            base = beh
+            if optset is not None:
+                # a member configured with the local option limited=True gives up (fails); the others run as given.
+                # What is expected follows from the configuration the caller wrote, what happens from the options
+                # pySMT hands to each member
+                beh = tuple("X" if (optset[i] or {}).get("limited") else b_ for i, b_ in enumerate(base))
             w.reset_run([], list(beh), {})
             # factory stub: the portfolio asks for the solver names; members construct their solver through it
-            behaviour = dict(zip(names, beh))
+            behaviour = dict(zip(names, base))
 
             def mk_solver(i_, a_, k_, behaviour=behaviour):
                 nm = k_.get("name")
-                return i_.instantiate(ClassRef(PF_PROBE_MOD + ".StubSolver"), [nm, k_.get("logic"), behaviour[nm], holder["verdict"]], {})
+                bh = "X" if k_.get("limited") else behaviour[nm]
+                return i_.instantiate(ClassRef(PF_PROBE_MOD + ".StubSolver"), [nm, k_.get("logic"), bh, holder["verdict"]], {})
             factory = AObj("sa_probe.Factory", {"Solver": Prim(mk_solver, "factory.Solver"),
                                                 "all_solvers": Prim(lambda i_, a_, k_: list(names), "all_solvers")})
             w.env.attrs["_factory"] = factory
             try:
-                pf = it.instantiate(ClassRef(PORTFOLIO), [names, w.env, logic], {"solver_options": {"exit_on_exception": exit_on_exception}})
+                spec = list(names) if optset is None else [nm if optset[i] is None else (nm, dict(optset[i])) for i, nm in enumerate(names)]
+                pf = it.instantiate(ClassRef(PORTFOLIO), [spec, w.env, logic], {"solver_options": {"exit_on_exception": exit_on_exception}})
+                member_opts = [dict(o_) if optset is not None else {} for _n, o_ in it.iterate(pf.attrs["solvers"])]
                 it.call(it.getattr(pf, "add_assertion"), [f])
                 # what each member puts on the queue: _run_solver interpreted with its stub solver
                 msgs = {}
@@ -1238,7 +1248,7 @@ def _portfolio_chunk(job):
                     w.puts = []
                     w.recv_reached = False
                     pname = "%d (%s)" % (i, nm)
-                    it.call(run_solver, [pname, nm, logic, {}, f, QueueModel(w), ConnModel(w, "child")])
+                    it.call(run_solver, [pname, nm, logic, dict(member_opts[i]), f, QueueModel(w), ConnModel(w, "child")])
                     alive_after[i] = w.recv_reached
                     if len(w.puts) != 1:
                         out.append((beh, order, gaps, "bad", "member %s puts %d messages on the queue" % (nm, len(w.puts))))
@@ -1261,6 +1271,18 @@ def _portfolio_chunk(job):
                     answering = [i for i in order if beh[i] == "T"]
                     first = order[0] if order else None
                     problems = []
+                    if optset is not None:
+                        # every member process is started with the shared options plus its own local ones, nobody else's
+                        for p in w.processes:
+                            if p.args is None or p.index is None:
+                                continue
+                            po = dict(p.args[3]) if isinstance(p.args[3], dict) else None
+                            mine = optset[p.index] or {}
+                            others = set(k_ for j_, o_ in enumerate(optset) if o_ and j_ != p.index for k_ in o_) - set(mine)
+                            if po is None or any(po.get(k_) != v_ for k_, v_ in mine.items()) or any(k_ in po for k_ in others):
+                                problems.append("member %d is started with the options %s; it was configured with %s"
+                                                % (p.index, dict((k_, v_) for k_, v_ in (po or {}).items() if k_ in ("limited", "seed")), mine))
+                                break
                     if exit_on_exception and first is not None and beh[first] == "X":
                         if res[0] != "raise":
                             problems.append("exit_on_exception: the first message is a failure but solve returns %r" % (res[1],))
@@ -1289,7 +1311,7 @@ def _portfolio_chunk(job):
                             if beh[i] == "D":
                                 continue
                             w.puts = []
-                            it.call(run_solver, ["%d (%s)" % (i, nm), nm, logic, {}, f, QueueModel(w), ConnModel(w, "child")])
+                            it.call(run_solver, ["%d (%s)" % (i, nm), nm, logic, dict(member_opts[i]), f, QueueModel(w), ConnModel(w, "child")])
                             msgs2[i] = w.puts[0] if w.puts else None
                         sched2 = [("msg", i, msgs2[i]) for i in order]
                         w.reset_run(sched2, list(beh), death)
@@ -1332,10 +1354,17 @@ def portfolio_results(repo, tier="quick"):
             for eoe in (False, True):
                 for i in range(0, len(sc_), 40):
                     jobs.append((n, sc_[i:i + 40], eoe))
+        # per-member options: the member given with limited=True fails, the ones given by name or with other options run
+        for n_, optset in ((2, ({"limited": True}, None)), (2, (None, {"limited": True})), (2, ({"seed": 1}, {"seed": 2})),
+                           (3, ({"limited": True}, None, {"seed": 2})), (3, (None, {"seed": 1}, {"limited": True})),
+                           (3, ({"seed": 1}, {"limited": True, "seed": 2}, None))):
+            sc_ = [x for x in _pf_scenarios(n_) if all(b_ == "T" for b_ in x[0])]
+            jobs.append((n_, sc_, False, optset))
         _portfolio_chunk((2, _pf_scenarios(2)[:2], False))
         out = []
         for job, r in zip(jobs, parallel_map(_portfolio_chunk, jobs)):
-            out.extend((job[0], job[2]) + x for x in r)
+            tag = "" if len(job) < 4 else ", member options %s" % (list(job[3]),)
+            out.extend((job[0], job[2], tag) + x for x in r)
         _PCACHE[key] = out
     return _PCACHE[key]
 
@@ -1421,7 +1450,7 @@ def _opt_scenarios():
     """(name, assertions builder, symbol domains, goals...)  Every objective is bounded by the assertions, so its
     optimum is attained."""
     return ["int-box", "int-diag", "int-unsat", "bv-unsigned", "bv-signed", "bv-signed-front", "bv-signed-dominated",
-            "bv-signed-dominated-rev", "int-front", "bool-soft"]
+            "bv-signed-dominated-rev", "bv-signed-extreme", "bv-signed-extreme-fwd", "int-front", "bool-soft"]
 
 
 def _opt_job(job):
@@ -1488,6 +1517,16 @@ def _opt_job(job):
                 rng = list(reversed(rng))
             doms = {u: rng, v: rng}
             goals = [("max u", Max, [u, True]), ("max v", Max, [v, True]), ("max v", Max, [v, True])]
+        elif scen.startswith("bv-signed-extreme"):
+            # the extreme values of the signed range (-4 and 3 on 3 bits) are feasible; the oracle enumerates from -1
+            # downwards (resp. upwards), so the search reaches the most negative value one step at a time
+            asserts = [w.app("Not", w.app("Equals", u, w.bv_const(0, 3))), w.app("Equals", v, w.app("BVNeg", u))]
+            rng = list(range(8))
+            if not scen.endswith("-fwd"):
+                rng = list(reversed(rng))
+            doms = {u: rng, v: rng}
+            goals = [("min u", Min, [u, True]), ("max u", Max, [u, True]), ("min v", Min, [v, True]), ("max v", Max, [v, True]),
+                     ("minmax u,v", MinMax, [[u, v], True]), ("maxmin u,v", MaxMin, [[u, v], True])]
         elif scen == "int-front":
             asserts = box(x, 0, 3) + box(y, 0, 3) + [w.app("LE", w.app("Plus", x, y), I(3))]
             doms = {x: range(-1, 5), y: range(-1, 5)}
